@@ -620,6 +620,10 @@ class SqlalchemyRender:
             query = query.limit(node.limit.value)
 
         if node.offset is not None:
+            if node.limit is None and self.dialect.name == 'sqlite':
+                # sqlite needs a LIMIT to carry an OFFSET; sqlalchemy supplies `LIMIT -1` as a bound parameter,
+                # which is printed as the placeholder :param_1 even with literal_binds
+                query = query.limit(-1)
             query = query.offset(node.offset.value)
 
         if node.mode is not None:
